@@ -15,3 +15,35 @@ OPTION_LIMIT_EDITS = [
 ]
 
 OPT_MATCH, OPT_CLOSURES, OPT_BAD = (m["edits"] for m in OPTION_LIMIT_EDITS)
+
+
+def edits_from_patch(rel):
+    """exact-text edits [(file, old, new), ..] equivalent to a unified diff kept under /verif (one per hunk), so that a confirmed
+    seeded change can serve as a self-test mutant without being retyped"""
+    import os
+    import re
+    here = os.path.dirname(os.path.dirname(os.path.dirname(os.path.abspath(__file__))))
+    out, f, old, new = [], None, [], []
+
+    def flush():
+        nonlocal old, new
+        if f is not None and (old or new) and old != new:
+            out.append((f, "".join(old), "".join(new)))
+        old, new = [], []
+    for line in open(os.path.join(here, rel)):
+        if line.startswith("+++ b/"):
+            flush()
+            f = line[6:].strip()
+        elif line.startswith("--- ") or line.startswith("diff ") or line.startswith("index "):
+            continue
+        elif line.startswith("@@"):
+            flush()
+        elif line.startswith("+"):
+            new.append(line[1:])
+        elif line.startswith("-"):
+            old.append(line[1:])
+        elif line.startswith(" "):
+            old.append(line[1:])
+            new.append(line[1:])
+    flush()
+    return out
